@@ -344,8 +344,16 @@ func genDFile(r *Rand, tier string) *dFile {
 	g.apps = pool[:n]
 	// decide names first so that references can be drawn
 	nTypes := make([]int, n)
+	// a chain of mixins through an application that declares no type itself (a grouping application)
+	emptyMiddle := n >= 3 && r.Chance(1, 5)
 	for i, a := range g.apps {
 		nTypes[i] = r.Intn(5)
+		if emptyMiddle && i == 1 {
+			nTypes[i] = 0
+		}
+		if emptyMiddle && i == 2 && nTypes[i] == 0 {
+			nTypes[i] = 2
+		}
 		for t := 0; t < nTypes[i]; t++ {
 			tn := fmt.Sprintf("T%d", t)
 			if r.Chance(1, 6) {
@@ -386,6 +394,9 @@ func genDFile(r *Rand, tier string) *dFile {
 				a.Mixins = append(a.Mixins, g.apps[j])
 			}
 		}
+		if emptyMiddle && i < 2 {
+			a.Mixins = [][]string{g.apps[i+1]}
+		}
 		for t, tn := range g.types[appKey(parts)] {
 			td := dTypeDecl{Name: tn, Attrs: g.attrs(true), Fields: []dField{}, Items: []dEnumItem{}, Members: []dType{}}
 			switch k := r.Intn(8); {
@@ -420,7 +431,7 @@ func genDFile(r *Rand, tier string) *dFile {
 			_ = t
 		}
 		// enums, aliases, unions beside the tuple types
-		if r.Chance(1, 2) {
+		if r.Chance(1, 2) && !(emptyMiddle && i == 1) {
 			td := dTypeDecl{Name: "Status", Kind: "enum", Attrs: g.attrs(false), Fields: []dField{}, Members: []dType{}}
 			vals := []int64{1, 2, 3, 65536, 4294967296, 9007199254740993, 0}
 			Shuffle(r, vals)
@@ -429,10 +440,10 @@ func genDFile(r *Rand, tier string) *dFile {
 			}
 			a.Types = append(a.Types, td)
 		}
-		if r.Chance(1, 3) {
+		if r.Chance(1, 3) && !(emptyMiddle && i == 1) {
 			a.Types = append(a.Types, dTypeDecl{Name: "Alias1", Kind: "alias", Attrs: g.attrs(false), Alias: g.aliasTy(parts), Fields: []dField{}, Items: []dEnumItem{}, Members: []dType{}})
 		}
-		if r.Chance(1, 3) {
+		if r.Chance(1, 3) && !(emptyMiddle && i == 1) {
 			td := dTypeDecl{Name: "Union1", Kind: "union", Attrs: g.attrs(false), Fields: []dField{}, Items: []dEnumItem{}}
 			seenM := map[string]bool{}
 			for k := 0; k < 1+r.Intn(3); k++ {
